@@ -194,8 +194,11 @@ def texts(dialect, rng, n, p_corpus=0.15, p_mut=0.2):
         return ''.join(ch.upper() if rng.random() < 0.5 else ch.lower() for ch in w)
     for i in range(max(4, n // 8)):
         k = rng.random()
-        if k < 0.5:
+        if k < 0.3:
             yield 'stmt-family', '%s %s %s %s' % (anycase('select'), word(), anycase('from'), word())
+        elif k < 0.5:
+            yield 'stmt-family', '%s %s %s %s %s %s' % (anycase('select'), word(), anycase('from'), word(), anycase('limit'),
+                                                          ''.join(rng.choice('0123456789') for _ in range(rng.randint(1, 12))))
         else:
             ws = [anycase(realise(rng.choice(kws)[1], rng)) if rng.random() < 0.5 else word() for _ in range(rng.randint(2, 7))]
             yield 'words-family', ' '.join(ws) + ' ' + word()
